@@ -26,7 +26,7 @@ PROPS = {
     "C01": P([], "C01", "C01", "races,default,big,stale,budget,groups,reuse", ALL, (1500, 40000)),
     "C02": P([], "C02", "C02", "default,stale,limits,races,budget,groups,reuse", "FUB,FU,FOB,FO", (2000, 50000)),
     "C03": P(["C03_release_acquire", "C03_side_condition_needed"], "C03", "C03", "drops,stale,races,default,budget,groups,reuse", ALL, (1500, 30000),
-             generated_lemmas=["OrderingsInst.orderings_ok"], min_events=2,
+             generated_lemmas=["OrderingsInst.orderings_ok", "Calib.layout_ok"], min_events=2,
              trusted_extra=["tools/build.py extract_orderings: regular expressions over inc_strong / dec_strong in src/waker_list.rs",
                             "Orderings.v: my rendering of the C11 release-sequence / fence rules"],
              assumptions=["sequential consistency for everything except the reference count; data-race freedom of the three dependencies is trusted"]),
